@@ -18,7 +18,7 @@ LEVEL = "exploration"
 RULE = (
     "one case per (history, prefix, probe): histories of 1-12 assemblies in one process (valid programs, programs failing in the scanner, "
     "parser, expansion, label pass and emission, .map programs, other ROM types, programs whose data ends with the last byte of a mapped region, programs that abandon an expression half-way, programs re-using the probes' macro/symbol/label/table/"
-    "file names with other contents, file-API and in-process CLI runs) followed after every prefix by 49 probes (LoROM, HiROM, low2, .map, "
+    "file names with other contents, file-API and in-process CLI runs) followed after every prefix by 51 probes (LoROM, HiROM, low2, .map, "
     "macros, tables, .incbin, -D, failing probes); each probe result (blocks, labels, root symbols, error kind and text with object "
     "addresses normalised) is compared with the same probe assembled alone in a fresh interpreter, and probes are repeated; batches of probes are also assembled on Program objects that were all constructed before the first of them ran; distinct by "
     "hash of (history prefix, probe); non-trivial = every comparison against a fresh-process baseline"
@@ -78,6 +78,10 @@ def fixed_probes() -> list[dict]:
         # two blocks closed by adjacent braces (reads as the end of a splice): whatever this source gets, it gets it always
         {"name": "adjacent_closing_braces", "src": "*=0x008000\n.scope a_q {\n.scope b_q {\nnop\n}}\n.db 1\n", "rom": None},
         {"name": "adjacent_closing_braces_after_splice", "src": "*=0x008000\n.macro wq(pb) {\n{{pb}}\n}\nwq({\nnop\n})\n{\n{\nrts\n}}\n", "rom": None},
+        # bodies without statements (a hook macro compiled out, an empty conditional, an empty loop)
+        {"name": "empty_bodies", "src": "*=0x018000\n.macro hookq() {\n}\nhookq()\n.if 0 {\n}\n.for eq := 0, 2 {\n}\n.scope emptq {\n}\nentry_q:\nrts\n.dl entry_q\n", "rom": None},
+        # a failing source through the file API, twice the same: the error is reported every time
+        {"name": "fail_api_undefined_symbol", "via": "api", "fmt": "patch", "rom": "low", "src": "*=0x008000\n.dw item_table_q\n"},
         {"name": "fail_unknown_directive_incsrc", "src": "*=0x008000\n.db 1\n.incsrc 'shared_inc.s'\n", "rom": None},
         {"name": "fail_unknown_directive_inclue", "src": "*=0x008000\n.inclue 'shared_inc.s'\n.db 1\n", "rom": None},
         {"name": "fail_unknown_directive_tabel", "src": "*=0x008000\n.tabel 'shared.tbl'\n.dbb 1\n", "rom": None},
@@ -243,6 +247,9 @@ def history_action(rng: random.Random) -> dict:
     if 0.17 <= extra < 0.21:
         # a splice that is never closed (a typo): the source fails, and that is all
         return {"what": "unterminated_splice", "src": f"*={addr:#x}\n.macro uq(pb) {{\n.db 1\n" + rng.choice(["{{pb}\n}\nuq({\nnop\n})\n", "{{pb\n}}\n}\n", "{{\n"]), "rom": None}
+    if 0.21 <= extra < 0.25:
+        # empty blocks and comment-only blocks in a valid source
+        return {"what": "empty_blocks", "src": f"*={addr:#x}\n{{\n}}\nnop\n{{\n; nothing yet\n}}\n.scope eq_h {{\n{{\n}}\n}}\nrts\n", "rom": None}
     if extra < 0.07:
         return {"what": "map_without_identifier", "src": ".map bank_range=0x00, 0x3f addr_range=0x8000, 0xffff mask=0x8000\n*=0x008000\n.db 1\n", "rom": None}
     k, mk = rng.randrange(256), rng.randrange(256)
